@@ -391,22 +391,19 @@ def sep_inside_step(inner: int, open_kind: int, tok: int, ch: str) -> bool:
 
 
 def replay_sep_inside(inner, open_kind, tok, ch):
+    """the token must behave like ordinary text: the tree has the same shape as for the same document with `QQ` in its place"""
     w = Wtp(quiet=True, quiet_output=True)
-    w.start_page("T")
     token = ["!!", "!", "||"][tok]
     opener, closer = {"HTML": ("<span>", "</span>"), "LINK": ("[[", "]]"), "TEMPLATE": ("{{", "}}"), "URL": ("[http://e.org ", "]")}[INNER_KINDS[inner]]
     lead = "! " if open_kind == 2 else "| "
-    doc = "{|\n|-\n" + lead + "a" + opener + "x" + ch + token + "b" + closer + "z\n|}"
-    root = w.parse(doc)
-    cells = []
 
-    def walk(n):
-        if isinstance(n, WikiNode):
-            if n.kind in (K.TABLE_CELL, K.TABLE_HEADER_CELL):
-                cells.append(n)
-            for c in n.children:
-                walk(c)
+    def shape(n):
+        return (n.kind.name, [shape(c) for c in n.children if isinstance(c, WikiNode)], [[shape(c) for c in a if isinstance(c, WikiNode)] for a in n.largs])
 
-    walk(root)
-    bad = len(cells) != 1
-    return ("parse(" + repr(doc) + ")", bad, f"the row has {len(cells)} cells: a cell separator inside an open {INNER_KINDS[inner]} construct ended the cell")
+    docs = []
+    for t in (token, "QQ"):
+        doc = "{|\n|-\n" + lead + "a" + opener + "x" + ch + t + "b" + closer + "z\n|}"
+        w.start_page("T")
+        docs.append((doc, shape(w.parse(doc))))
+    bad = docs[0][1] != docs[1][1]
+    return ("parse(" + repr(docs[0][0]) + ")", bad, f"a cell separator inside an open {INNER_KINDS[inner]} construct is not treated as text: tree {docs[0][1]}, with plain text in its place {docs[1][1]}")
